@@ -6,7 +6,7 @@ usage: check_c20.py <quick|thorough> | --replay <file>"""
 import json, os, subprocess, sys, time, itertools, re, hashlib
 from concurrent.futures import ThreadPoolExecutor
 
-V = '/verif'
+V = os.environ.get('MZV_VERIF_DIR') or os.path.dirname(os.path.dirname(os.path.abspath(__file__)))
 FEATS = ['with-alloc', 'std', 'serde', 'block-boundary', 'simd']
 HERE = f'{V}/c20'
 ENV = dict(os.environ, CARGO_NET_OFFLINE='true', CARGO_TERM_COLOR='never')
